@@ -80,7 +80,7 @@ def model_value(x, g, B, p) -> float:
     return float(g @ z + 0.5 * z @ (B @ z))
 
 
-def kernel_input(seed: int, n: Optional[int] = None, pattern: Optional[Tuple] = None) -> Dict[str, Any]:
+def kernel_input(seed: int, n: Optional[int] = None, pattern: Optional[Tuple] = None, tie: bool = False) -> Dict[str, Any]:
     """random kernel input (feasible x, gradient, box, memory); `pattern` fixes, per variable,
     (position in {lb, ub, interior}, gradient sign in {-1, 0, 1}, bound kind in {both, lower, upper, none})"""
     rng = np.random.default_rng(seed)
@@ -107,6 +107,28 @@ def kernel_input(seed: int, n: Optional[int] = None, pattern: Optional[Tuple] = 
     # symmetric situations produce equal breakpoints: provoke them now and then
     if n >= 2 and r.random() < 0.15:
         x[1], g[1], lb[1], ub[1] = x[0], g[0], lb[0], ub[0]
+    if tie and n >= 3:
+        # two (or three) variables heading to a finite bound they reach at the same t, the others still moving
+        # far beyond it: the search must go on past the tied breakpoints when the model keeps decreasing
+        k = 3 if (n >= 4 and r.random() < 0.3) else 2
+        sg0 = r.choice([-1.0, 1.0])
+        g0 = sg0 * float(10 ** rng.uniform(-0.5, 1.0))
+        for j in range(k):
+            g[j] = g0
+            if sg0 < 0:
+                ub[j] = float(rng.uniform(0.2, 2.0))
+                x[j] = ub[j] - float(abs(g0)) * 0.37
+                lb[j] = -np.inf if r.random() < 0.5 else x[j] - 3.0
+            else:
+                lb[j] = -float(rng.uniform(0.2, 2.0))
+                x[j] = lb[j] + float(abs(g0)) * 0.37
+                ub[j] = np.inf if r.random() < 0.5 else x[j] + 3.0
+            if j:
+                x[j], lb[j], ub[j] = x[0], lb[0], ub[0]
+        for j in range(k, n):
+            g[j] = r.choice([-1.0, 1.0]) * float(10 ** rng.uniform(-1.5, 0.0))
+            lb[j], ub[j] = (-np.inf, np.inf) if r.random() < 0.5 else (-50.0, 50.0)
+            x[j] = float(rng.uniform(-1, 1))
     return {"x": x, "g": g, "lb": lb, "ub": ub, "mats": mats, "n": n, "npairs": 0 if hist is None else len(hist[0]) - 1}
 
 
